@@ -343,7 +343,13 @@ fn search_c11(budget: usize) {
     ];
     let mut tried = 0;
     while tried < budget {
-        let a = bad[rng.below(bad.len())].clone();
+        let mut a = bad[rng.below(bad.len())].clone();
+        if a.len() < 900 && rng.chance(50) {
+            // a valid request first, so that the rejected one starts at a non-zero buffer offset
+            let mut pre = b"GET /before HTTP/1.1\r\n\r\n".to_vec();
+            pre.extend(a);
+            a = pre;
+        }
         let limit = 51200;
         let b = gen_stream(&mut rng, 40);
         let (mut c, mut tx) = new_conn(Some(limit));
@@ -460,6 +466,7 @@ fn search_c06(budget: usize) {
     let mut tried = 0;
     while tried < budget {
         let (a, _b) = UnixStream::pair().unwrap();
+        a.set_nonblocking(true).unwrap();
         let accepted = std::rc::Rc::new(std::cell::RefCell::new(vec![]));
         let touched = std::rc::Rc::new(std::cell::Cell::new(0usize));
         let nops = 3 + rng.below(40);
@@ -474,8 +481,22 @@ fn search_c06(budget: usize) {
         let nresp = 1 + rng.below(5);
         let mut queued = 0;
         let mut steps = 0;
+        let mut expect_sent = false;
         while steps < 400 && (queued < nresp || c.pending_write()) {
             steps += 1;
+            if !expect_sent && rng.chance(8) {
+                // a request with Expect: 100-continue arrives: the interim response is queued by the parser, at the END
+                // of whatever is already queued
+                expect_sent = true;
+                let mut peer = &_b;
+                peer.write_all(b"PUT /e HTTP/1.1\r\nExpect: 100-continue\r\nContent-Length: 3\r\n\r\n").unwrap();
+                let _ = c.try_read();
+                let mut ser = vec![];
+                Response::new(Version::Http11, StatusCode::Continue).write_all(&mut ser).unwrap();
+                expect.extend(ser);
+                log.push("read(Expect request)".to_string());
+                continue;
+            }
             if queued < nresp && rng.chance(35) {
                 let mut r = Response::new(if rng.chance(50) { Version::Http10 } else { Version::Http11 }, StatusCode::OK);
                 let body: Vec<u8> = (0..rng.below(900)).map(|k| b'a' + ((k + queued) % 26) as u8).collect();
